@@ -60,13 +60,21 @@ func genC02(r *h.Rng, tier string, idx int) *h.Plan {
 			arr[j] = r.Pick(dom)
 		}
 		f := map[string]interface{}{"route": arr, "kind": "trip"}
-		if r.P(1, 3) {
-			f["via"] = map[string]interface{}{"stops": []interface{}{r.Pick(dom), r.Pick(dom)}}
-		}
+		// (no second array in the fact: a pattern drawn from it could bind one
+		// variable to two arrays, which the matcher decides by iteration order)
 		return f
 	}
 	for i := 0; i < n; i++ {
-		switch r.Weighted([]int{10, 4, 2, 3, 1, 1}) {
+		switch r.Weighted([]int{10, 4, 2, 3, 1, 1, 1}) {
+		case 6:
+			// an overwrite that is refused: what the id held before stays stored AND found
+			f := r.PickAny([]interface{}{
+				map[string]interface{}{"rule": map[string]interface{}{"when": float64(5), "action": map[string]interface{}{"code": "1"}}},
+				map[string]interface{}{"rule": map[string]interface{}{"when": map[string]interface{}{"pattern": "nomap"}, "action": map[string]interface{}{"code": "1"}}},
+				map[string]interface{}{"k": "v", "ttl": "yesterday"},
+				map[string]interface{}{"k": "v", "expires": float64(5)},
+			}).(map[string]interface{})
+			p.Ops = append(p.Ops, h.Op{K: "addfact", Loc: "L", Id: r.Pick(ids), J: f})
 		case 0:
 			f := h.GenFact(r, o)
 			if arrays && r.P(3, 4) {
